@@ -241,7 +241,7 @@ class EncFrame(Component):
         # incompressible blocks long enough for any expansion to outgrow the per-subframe allowance, with and without LPC
         for sh in ('noise', 'alt', 'edge', 'sticky1w'):
             for n in (256, 1024) + ((4096,) if tier == 'thorough' else ()):
-                for bps in (8, 16, 24):
+                for bps in (8, 16, 24, 32):
                     for o in ({'lpc': 'none'}, {'lpc': 'none', 'po': '0'}, {}, {'lpc': '1', 'po': '0', 'ms': '0'}):
                         out.append(self.one(rng, n, 1, bps, sh, o, 44100))
                         out.append(self.one(rng, n, 2, bps, sh, o, 44100))
@@ -667,6 +667,12 @@ class EncFile(Component):
             f['chunks'] = gen.join([rng.randint(1, max(1, frames * unit)) for _ in range(rng.randint(0, 3))])
             f['pcm'] = gen.join(pcm)
             out.append('wr ' + gen.fields_str(f))
+            if i % 6 == 0:
+                # a declared total that the data does not meet (one unit, one block, many blocks more than is written)
+                g = dict(f)
+                g['total'] = (frames + rng.choice([1, bs, 5 * bs + 3])) * unit
+                g['expect'] = 'mismatch'
+                out.append('wr ' + gen.fields_str(g))
         # more frames than a seek table can hold (932067 points), undeclared length, a point per frame
         out.append('wr fe=sample rate=44100 ch=1 bps=8 bs=16 seek=frames:1 lpc=none pcmgen=const:14913088:3')
         # declared totals beyond 65535 samples with a seconds policy: the placeholder table reserved up front is sized from frame lengths
@@ -685,10 +691,16 @@ class EncFile(Component):
             return (f'{self.name}:panic:{cls}', 'encoder/finalize panicked: ' + cls)
         if cf.get('pcmgen', '').startswith('const:14913088'):
             return None if h == 'ok' else (f'{self.name}:failed:{cls}', impl[:200])
-        if h != 'ok':
+        if cf.get('expect') == 'mismatch':
+            # fewer (or more) samples than declared: finalize must report it; a success is judged like any finished file below
+            if h == 'err':
+                return None
+        elif h != 'ok':
             return (f'{self.name}:failed:{cls}', 'writing a legal file failed: ' + impl[:200])
         if f.get('prefin_ok') != 'true':
             return (f'{self.name}:finalize-disturbed-frames', 'the header rewrite at finalize changed bytes outside the metadata region')
+        if f.get('total', '').isdigit() and f.get('lens') not in (None, '', '-') and int(f['total']) != 0 and int(f['total']) != sum(ints(f['lens'])):
+            return (f'{self.name}:streaminfo-total-untruthful', f'STREAMINFO declares {f["total"]} samples per channel but the frames of the finished file hold {sum(ints(f["lens"]))}')
         if 'regen_ok' in f and f['regen_ok'] != 'true':
             return (f'{self.name}:seektable-regeneration-differs', 'generate_seektable over the finished file gives other defined points: ' + f['regen_ok'])
         if 'walkerr' in f or 'walkopen' in f:
@@ -1430,6 +1442,12 @@ class Faults(Component):
                     for only in ('', 'w', 'f', 's', 'r'):
                         for at in range(0, 14 if tier == 'quick' else 40):
                             out.append(f'update file={(meta + frames).hex()} edits={edit} frames={len(frames)} failat={at} fkind={k} ftarget={tgt}' + (f' fonly={only}' if only else ''))
+            # a source that hands its bytes over in small pieces (16 or 100 per read), so that the metadata section spans many read calls:
+            # a read that fails after STREAMINFO has been parsed must stop the update like any other
+            for frag in (16, 100):
+                for k in ('perm', 'once', 'intr'):
+                    for at in range(0, 24 if tier == 'quick' else 60):
+                        out.append(f'update file={(meta + frames).hex()} edits={edit} frames={len(frames)} rfrag={frag} failat={at} fkind={k} ftarget=orig fonly=r')
         for _ in range(nscen):
             bl = metagen.streaminfo_lit(rng) + ';' + ';'.join(metagen.optional_block_lit(rng, rng.choice('PAVIT')) for _ in range(rng.choice([1, 2, 3])))
             for k in kinds:
